@@ -1235,5 +1235,30 @@ fn c08_driver_binding(rep: &mut Report) {
             rep.violation(Violation { sig: format!("C08/driver-binding/{kind}/wrong-deadline"), what: format!("Set{kind}Timer({}) was armed by the driver to fire in {} s", a.value, a.secs), case });
         }
     }
+    // the other arming site: flush_tx after it wrote UPDATEs (Input::UpdateSent)
+    for (l, r) in [(90u64, 90u16), (90, 30), (30, 180), (3, 3), (0, 90), (90, 0), (0, 0)] {
+        let h = l.min(r as u64);
+        let case = format!("binding#update-sent#{l}#{r}");
+        rep.traces_validated += 1;
+        rep.evaluations += 1;
+        match crate::event::verif_event::c08::driver_update_sent(l, r) {
+            Err(e) => {
+                rep.machinery_error = Some(format!("c08 driver binding (update sent): {e}"));
+                return;
+            }
+            Ok(((hn, hs), (kn, ks))) => {
+                if hn != 1 || !(775..=777).contains(&hs) {
+                    rep.violation(Violation { sig: "C08/driver-binding/update-sent/hold-timer-touched".into(), what: format!("local hold {l} / remote hold {r}: after flush_tx sent an UPDATE the hold timer is {hn} pending sleep(s) firing in {hs} s; it was armed with 777 s and only received KEEPALIVE / UPDATE may re-arm it"), case: case.clone() });
+                }
+                if h == 0 {
+                    if kn != 1 || !(553..=555).contains(&ks) {
+                        rep.violation(Violation { sig: "C08/driver-binding/update-sent/zero-hold-keepalive-armed".into(), what: format!("local hold {l} / remote hold {r} (negotiated 0): flush_tx re-armed the keepalive timer ({kn} pending, fires in {ks} s)"), case });
+                    }
+                } else if kn != 1 || !((h / 3).saturating_sub(2)..=h / 3).contains(&ks) {
+                    rep.violation(Violation { sig: "C08/driver-binding/update-sent/keepalive-not-rearmed".into(), what: format!("local hold {l} / remote hold {r}: after flush_tx sent an UPDATE the keepalive timer is {kn} pending sleep(s) firing in {ks} s, expected one firing in {} s", h / 3), case });
+                }
+            }
+        }
+    }
     rep.notes.push(format!("c08-driver-binding: {} distinct timer outputs emitted by the FSM during the exploration ({}) armed through the real PeerSession::apply_outputs; pending sleep count, deadline and the untouched other timer read back", res.len(), values.iter().map(|(h, v)| format!("{}:{}", if *h { "hold" } else { "ka" }, if *v >= FAR { "disabled".to_string() } else { v.to_string() })).collect::<Vec<_>>().join(" ")));
 }
